@@ -338,9 +338,11 @@ static void gc_mark(GCHeader* header) {
             DynArray* arr = (DynArray*)obj;
             ElementType elem_type = dyn_array_get_elem_type(arr);
             
-            /* If array contains GC objects (arrays or structs), mark them */
-            /* Note: Arrays of GC objects store pointers to those objects */
-            if (elem_type == ELEM_ARRAY || elem_type == ELEM_STRUCT) {
+            /* If array contains GC objects (nested arrays), mark them */
+            /* Note: only arrays of arrays store pointers to GC objects; arrays of
+             * structs hold the structs inline (elem_size bytes each), so their data
+             * must not be read as a pointer array */
+            if (elem_type == ELEM_ARRAY) {
                 int64_t len = dyn_array_length(arr);
                 /* For object arrays, data is an array of pointers */
                 void** ptr_data = (void**)arr->data;
